@@ -17,7 +17,12 @@ import (
 	"golang.org/x/tools/go/ssa/ssautil"
 )
 
-const repo = "/repo"
+var repo = func() string {
+	if r := os.Getenv("GOVC_REPO"); r != "" {
+		return r
+	}
+	return "/repo"
+}()
 const modPath = "github.com/google/go-tdx-guest"
 
 var repoPkgs = []string{"./abi", "./verify", "./validate", "./pcs", "./client", "./rtmr", "./verify/trust", "./tools/check", "./proto/..."}
@@ -189,7 +194,10 @@ func cmdVerify(args []string) {
 		}
 		for _, name := range names {
 			fn := w.funcs[name]
-			if len(fn.Blocks) == 0 {
+			if len(fn.Blocks) == 0 || fn.Name() == "init" || strings.HasPrefix(fn.Name(), "init#") {
+				continue
+			}
+			if sp := w.db.Lookup(fn); sp != nil && sp.Inline && pat != name {
 				continue
 			}
 			tf := time.Now()
